@@ -318,6 +318,7 @@ class Spelling:
     noise: int = 0  # comment / whitespace noise level (0..3)
     crlf: bool = False
     macros: int = 0  # number of macro extractions (0..2)
+    flip_gaps: bool = False  # also move edges that carry a gapduration to the other keyword
 
 
 def _tid(sp: Optional[Spelling], path: tuple) -> str:
@@ -424,7 +425,7 @@ def render(spec: ProjectSpec, sp: Optional[Spelling] = None) -> str:
         for i, d in enumerate(t.deps):
             via = d.via
             rel = d.rel
-            if sp and (p, i) in sp.flip and not d.gap and not d.onstart:
+            if sp and (p, i) in sp.flip and not d.onstart and (not d.gap or sp.flip_gaps):
                 via = "precedes" if via == "depends" else "depends"
             if sp and (p, i) in sp.rel_flip:
                 rel = not rel
@@ -516,18 +517,22 @@ def _decorate(text: str, sp: Spelling) -> str:
     out = []
     macros = []
     k = 0
+    skip = set()
     for i, ln in enumerate(lines):
+        if i in skip:
+            continue
         s = ln.strip()
         if sp.macros and len(macros) < sp.macros and (s.startswith("depends ") or s.startswith("allocate ") or s.startswith("effort ")):
             # move this attribute line into a macro (every other candidate, deterministic)
             k += 1
             if k % 2 == 1:
                 name = f"mx{len(macros)}"
-                if s.startswith("effort "):
-                    # parameterised macro: the number is passed as argument
-                    val = s.split()[1]
-                    macros.append(f"macro {name} [\n  effort $1\n]")
-                    out.append(ln[: len(ln) - len(s)] + "${" + name + " " + val + "}")
+                if len(macros) % 2 == 1 and i + 1 < len(lines) and lines[i + 1].strip().startswith(("allocate ", "priority ", "milestone")):
+                    # two-line macro body with a comment between the statements
+                    nxt = lines[i + 1].strip()
+                    macros.append(f"macro {name} [\n  {s} // first\n  # second\n  {nxt}\n]")
+                    out.append(ln[: len(ln) - len(s)] + "${" + name + "}")
+                    skip.add(i + 1)
                 else:
                     macros.append(f"macro {name} [\n  {s}\n]")
                     out.append(ln[: len(ln) - len(s)] + "${" + name + "}")
